@@ -264,6 +264,8 @@ func coqRes(r res) (string, bool) {
 			i = j
 		}
 		return "RMsgFlags (mf_segs [" + strings.Join(p, "; ") + "])", true
+	case "uidflags":
+		return fmt.Sprintf("RUidFlags %d %s", r.N, coqFlags(r.Fl)), r.N >= 0
 	case "countuid":
 		return fmt.Sprintf("RCountUid %d %d", r.N, r.N2), true
 	case "optnum":
